@@ -57,9 +57,10 @@ class C06:
     def strategy(self, tier):
         lat = st.lists(st.sampled_from(simbus.LATENCY_GRID[1:]), min_size=1, max_size=3)
         return st.builds(
-            lambda sh, resid, cls, a, lo, lr, eps: dict(sh, resid=resid, cls=cls, a=a, lat={"O": lo, "R": lr}, eps=eps),
+            lambda sh, resid, cls, a, lo, lr, eps, sas, tx: dict(sh, resid=resid, cls=cls, a=a, lat={"O": lo, "R": lr}, eps=eps, sas=sas, tx_time=tx),
             st.sampled_from(shapes()), st.integers(1, 60), st.sampled_from(["pos", "ff", "zero", "arith"]),
-            st.integers(0, 255), lat, lat, st.lists(st.sampled_from([0.0, 1e-5, 1e-3]), min_size=1, max_size=2))
+            st.integers(0, 255), lat, lat, st.lists(st.sampled_from([0.0, 1e-5, 1e-3]), min_size=1, max_size=2),
+            st.sampled_from([[0x21, 0x42], [0x21, 0x42], [0x00, 0x42], [0x21, 0x00], [0x01, 0xFD], [0xFD, 0x80], [0xF8, 0x7F]]), st.sampled_from([0.0, 0.0, 0.0001, 0.0005]))
 
     def examples(self, tier):
         return 60 if tier == "quick" else 20000
@@ -69,7 +70,8 @@ class C06:
         for i, sh in enumerate(shapes()):
             seg = 60 if sh["dll"] == "j1939-22" else 7
             out.append(dict(sh, resid=[seg, 1, seg - 1, 3][i % 4], cls=["pos", "ff", "arith", "zero"][(i // 4) % 4], a=i,
-                            lat=LAT_DEFAULT, eps=[0.0, 1e-5]))
+                            lat=LAT_DEFAULT, eps=[0.0, 1e-5],
+                            sas=[[0x21, 0x42], [0x00, 0x42], [0x21, 0x00], [0xFD, 0x01]][(i // 3) % 4]))
         return out
 
     def exhaustive(self, tier):
@@ -96,11 +98,12 @@ class C06:
                 kw["silence"] = {"O": k}
             else:
                 kw["silence"] = {"R": k}
+        SA_O, SA_R = p.get("sas", [0x21, 0x42])
         w = W.World(latency=p["lat"], wake_eps=p["eps"], dispatch=[0.0, 1e-5], **kw)
         obs = {"viol": []}
         try:
-            o = w.stack("O", dll=p["dll"], max_cmdt=p["win_o"])
-            r = w.stack("R", dll=p["dll"], max_cmdt=p["win_r"])
+            o = w.stack("O", dll=p["dll"], max_cmdt=p["win_o"], tx_time=p.get("tx_time", 0.0))
+            r = w.stack("R", dll=p["dll"], max_cmdt=p["win_r"], tx_time=p.get("tx_time", 0.0))
             o.add_ca("o", 0x100, SA_O)
             r.add_ca("r", 0x200, SA_R)
             o.listen_ca("o")
@@ -152,6 +155,7 @@ class C06:
 
     # ---------------------------------------------------------------- judging
     def _judge(self, p, fault, obs, V):
+        SA_O, SA_R = p.get("sas", [0x21, 0x42])
         fd = p["dll"] == "j1939-22"
         kind = fault[0] if fault else "none"
         site = "%s|%s|%s" % ("22" if fd else "21", p["mode"], kind)
@@ -204,6 +208,7 @@ class C06:
         return completed
 
     def _judge_abort(self, p, obs, V, site, completed):
+        SA_O, SA_R = p.get("sas", [0x21, 0x42])
         fd = p["dll"] == "j1939-22"
         cm_pf = R.FD_CM_PF if fd else R.TP_CM_PF
         dt_pf = R.FD_DT_PF if fd else R.TP_DT_PF
